@@ -226,7 +226,7 @@ func cmdCheck(args []string) int {
 			}
 		}
 		if len(again) > 0 && len(again) <= 24 {
-			solveAll(again, tmp, 3*timeout, 4, false)
+			solveAll(again, tmp, 4*timeout, 6, false)
 		} else {
 			for _, o := range again {
 				o.Result = "timeout"
